@@ -14,10 +14,10 @@ from vmon.ref import geom
 
 ID = 'C19'
 RULE = ('random primitive crystal (all lattice systems, 1-3 orbits, 1-2 species) x random integer supercell matrix with '
-        '|det| in 2..6 x random atom order x noise 1e-10 (default threshold) or 1e-7 with threshold=1e-6 (40 %); non-trivial = every case (the supercell always has >=2 primitive '
+        '|det| in 2..6 x random atom order x noise 1e-10 (default threshold) or 3e-8 with threshold=1e-6 (40 %); non-trivial = every case (the supercell always has >=2 primitive '
         'cells); distinct = (kind, atoms per species, supercell matrix)')
 ASSUMPTIONS = ['primitivity of P and the reference group order come from an independent brute-force search (tolerance 1e-6)',
-               'noise amplitude 1e-10 per coordinate (threshold 1e-8) or 1e-7 (threshold 1e-6); atoms of the description must lie within 60 x noise (direct-coordinate noise times the supercell size, plus the noise of the reference atom) of atoms of the reduced crystal, up to one common translation']
+               'noise amplitude 1e-10 per coordinate (threshold 1e-8) or 3e-8 (threshold 1e-6; with 1e-7 the symmetry search itself loses operations to its matching tolerance: 22 of 24 found); atoms of the description must lie within 60 x noise (direct-coordinate noise times the supercell size, plus the noise of the reference atom) of atoms of the reduced crystal, up to one common translation']
 REQUIRED_OBS = {'supercells_built': 20, 'noisy_supercells': 20, 'eval:C19:atoms-preserved': 20, 'eval:C19:volume-per-atom': 20, 'eval:C19:group-order': 20}
 PER_CASE = 5
 
@@ -70,7 +70,7 @@ def run_case(case):
         # positions either exact to round-off (noise 1e-10, default threshold 1e-8) or with relaxation-like noise 1e-7 and a user
         # threshold of 1e-6 (copies of one atom then sit on both sides of a reduced-cell face)
         noisy = rng.uniform() < 0.4
-        noise = 1e-7 if noisy else 1e-10
+        noise = 3e-8 if noisy else 1e-10   # 1e-7 is too close to the threshold: group operations are then lost to the matching tolerance
         kwc = {'threshold': 1e-6} if noisy else {}
         latt, newbasis = supercell_atoms(P.lattice, P.basis, S, rng, noise=noise)
         mon.count('noisy_supercells', noisy)
